@@ -35,6 +35,9 @@ def all_cases(ctx):
     cs = [c for c in F.f_unit(8, pairs=False) if c[0][2] in (1, 2, 3, 4, 5, 8)] + [c for c in F.f_unit(3) if c[0][0] == "pair"][::3]
     cs += F.f_shape() + const_cases()
     cs += F.renamed([c for c in F.f_unit(3, pairs=False) if c[0][2] == 2], "miter")
+    # inputs / gates that merely start like the miter's own names (c0_k, c1_k, dif_en, sat_in, ...) without clashing with any
+    cs += F.renamed([c for c in F.f_unit(3, pairs=False) if c[0][2] == 3][:4] + F.f_shape()[:3], "miter3")
+    cs += F.renamed([c for c in F.f_unit(3, pairs=False) if c[0][2] == 2][:3] + F.f_shape()[3:5], "miter2")
     cs += F.f_rand(ctx.seed, 15 if ctx.quick else 100, n_in=None, n_gates=None, max_arity=3)
     return cs
 
